@@ -372,6 +372,9 @@ where
             OpenOptions::new().write(true).open(&self.file_path).await?;
         let mut guard = file.lock_write().await.map_err(|e| e.error)?;
         guard.write_all(&buffer).await?;
+        // The file is not truncated when opened, discard
+        // any bytes of a longer previous vault
+        guard.inner_mut().set_len(buffer.len() as u64).await?;
         guard.flush().await?;
 
         Ok(())
